@@ -110,6 +110,9 @@ def run(rep, tier, seed, model_ok=True, effort=1):
                 s2 = "<%s>" % type(ex).__name__
             if s2 != s and not s2.startswith("<"):
                 rep.violation("legacy version re-renders differently after reading back: %r" % s2, input=inp, **{"class": "v1-rerender-differs"})
+            # read back with the same parts: a year part (four or two digits) denotes the year it was rendered from (dates are 2000..2099)
+            if any(x in pat for x in ("{year}", "{yy}", "{yyyy}", "{pycalver}", "{calver}")) and v2.year is not None and v2.year != v.year:
+                rep.violation("legacy version reads back with year %s, it was rendered from %s" % (v2.year, v.year), input=inp, **{"class": "v1-parts-differ"})
         for cand in [s] + ([s + r.choice([".5", "x", "-"])] if r.random() < 0.3 else []) + ([s[:-1]] if r.random() < 0.2 else []):
             pr = impl_parse(impl, cand, pat)
             parse_items.append("(%s,%s,%s)" % (cs(cand), cs(pat), cpres(pr)))
@@ -269,6 +272,27 @@ def derived_stream(rep, impl, r, rounds):
                 code, out, logs, exc = prj.run(impl, args)
                 new = next((l.split("New Version: ", 1)[1].strip() for l in logs if "New Version: " in l), None)
                 after = prj.snapshot()
+                # and once more from the files the first update wrote (what it wrote must be found again)
+                args2 = ["update", "--no-fetch", "--date", (nd + dt.timedelta(days=40)).isoformat()] + (["--patch"] if vp == "{semver}" else [])
+                code2, out2, logs2, exc2 = prj.run(impl, args2) if code == 0 else (None, "", [], None)
+                new2 = next((l.split("New Version: ", 1)[1].strip() for l in logs2 if "New Version: " in l), None)
+                after2 = prj.snapshot()
+            import lexid
+            try:
+                lexid.next_id(lexid.next_id(v.bid))
+                second_possible = True
+            except OverflowError:
+                second_possible = False      # the build id reaches its documented maximum (all nines)
+            if code == 0 and new and (second_possible or "{semver}" in vp):
+                got2 = after2.get("setup.py", b"").decode("utf-8")
+                m2 = re.fullmatch(r'setup\(\n    version="([^"]*)",\n\)\n', got2)
+                try:
+                    ok2 = code2 == 0 and new2 and m2 is not None and pv.Version(m2.group(1)) == pv.Version(new2)
+                except Exception:
+                    ok2 = False
+                if not ok2:
+                    rep.violation("a second update does not find / rewrite what the first one wrote for the derived PEP 440 pattern", input=dict(version_pattern=vp, current_version=cur,
+                                  file_pattern='version="%s"' % derived, first=dict(args=args, new=new), second=dict(args=args2, exit=code2, new=new2, logs=logs2[-3:]), file_after=got2), **{"class": "v1-derived-pattern"})
             rep.case(("derived", vp, cur, nd.isoformat()), nontrivial=code == 0)
             rep.count("derived-pattern-runs")
             inp = dict(version_pattern=vp, current_version=cur, file_pattern='version="%s"' % derived, file_text=contents["setup.py"], args=args, exit=code, logs=logs[-3:])
